@@ -1092,6 +1092,11 @@ where
                             "cas: on c{} by t{} installed {} over {} but returned {} (current = {})",
                             c, w, new_id, replaced, id, cur_id
                         ));
+                    } else if cur_id != "null" && replaced != cur_id {
+                        violation(format!(
+                            "cas: on c{} by t{} replaced {} although current denoted {} — another object at the same address",
+                            c, w, replaced, cur_id
+                        ));
                     }
                     stat(sh, "cas_success", 1, false);
                 }
@@ -1132,9 +1137,39 @@ where
             };
             // `current` moves into the call: its destructor (possibly the last reference of a value
             // whose destructor panics) runs inside compare_and_swap
+            let i0 = i0_of(*c);
+            names(|n| n.last_write.remove(&w));
+            let new_id = ident(&newv);
+            let cur_id = ident(&cg);
             let res = S::cas_guard_by_value(&a, cg, newv);
             touch(&res);
             let id = ident(&res);
+            // the same verdicts as for the by-reference forms; and the object replaced must be the
+            // very object `current` denoted (not another one that came to live at its address)
+            let same_ptr = id.split('#').next() == cur_id.split('#').next();
+            match names(|n| n.last_write.get(&w).cloned()) {
+                Some((_, _, replaced, _, _)) => {
+                    if replaced != id || !same_ptr {
+                        violation(format!(
+                            "cas: on c{} by t{} installed {} over {} but returned {} (current = {})",
+                            c, w, new_id, replaced, id, cur_id
+                        ));
+                    } else if replaced != cur_id {
+                        violation(format!(
+                            "cas: on c{} by t{} (current given as a guard by value) replaced {} although current denoted {} — another object at the same address",
+                            c, w, replaced, cur_id
+                        ));
+                    }
+                    stat(sh, "cas_success", 1, false);
+                }
+                None => {
+                    if same_ptr {
+                        violation(format!("cas: on c{} by t{} returned current ({}) without having written", c, w, id));
+                    }
+                    check_window(sh, w, *c, i0, &id, "compare_and_swap (failed)");
+                    stat(sh, "cas_failure", 1, false);
+                }
+            }
             put_g!(*g, (res, id.clone()));
             done!(*c);
             format!("g{}={}", g, id)
